@@ -142,13 +142,15 @@ Record InvA (st : state) (ss : sstate) (A : nat -> mid -> option nat) : Prop := 
   i_wfd : wfd (ss_decls ss);
   i_names : NoDup (map f_name (st_flavors st));
   i_dom : forall f, In f (map f_name (st_flavors st)) <-> f = vanilla \/ defined (ss_decls ss) f = true;
-  i_van : forall fl, In fl (st_flavors st) -> f_name fl = vanilla -> f_inherit fl = [] /\ f_vars fl = [] /\ f_keys fl = [];
+  i_van : forall fl, In fl (st_flavors st) -> f_name fl = vanilla ->
+     f_inherit fl = [] /\ f_vars fl = [] /\ f_keys fl = [] /\ f_initable fl = [] /\ f_required fl = [];
   i_user : forall fl, In fl (st_flavors st) -> f_name fl <> vanilla ->
      f_inherit fl = tl (prec (ss_decls ss) (f_name fl)) ++ [vanilla] /\ f_prec fl = f_name fl :: f_inherit fl /\
      (forall v, lookup Nat.eqb v (f_vars fl) = s_var (ss_decls ss) (f_name fl) v) /\
      (forall k, lookup Nat.eqb k (f_keys fl) = s_key (ss_decls ss) (f_name fl) k);
   i_io : forall fl, In fl (st_flavors st) -> f_name fl <> vanilla ->
-     (forall v, In v (f_initable fl) <-> In v (s_initable (ss_decls ss) (f_name fl))) /\ f_required fl = s_required (ss_decls ss) (f_name fl);
+     (forall v, In v (f_initable fl) <-> In v (s_initable_all (ss_decls ss) (f_name fl))) /\
+     (forall k, In k (f_required fl) <-> In k (s_required_inh (ss_decls ss) (f_name fl)));
   i_keys : forall fl, In fl (st_flavors st) -> NoDup (map fst (f_meths fl)) /\ noempty (f_meths fl);
   i_tbl : forall fl m, In fl (st_flavors st) -> tbl_of fl m = filter_map (fun g => A g m) (f_name fl :: f_inherit fl);
   i_slot : forall g m, match s_slot ss g m with
@@ -410,7 +412,7 @@ Proof.
     + rewrite Hnames. apply (i_names _ _ _ I).
     + rewrite Hnames. apply (i_dom _ _ _ I).
     + intros x' Hx' E. apply in_map_iff in Hx'. destruct Hx' as [x [Ex Hx]]. subst x'.
-      destruct (PG x Hx) as (P1 & P2 & P3 & P4 & _). rewrite P2, P3, P4. apply (i_van _ _ _ I x Hx). congruence.
+      destruct (PG x Hx) as (P1 & P2 & P3 & P4 & _). destruct (PGio x Hx) as [Q1 Q2]. rewrite P2, P3, P4, Q1, Q2. apply (i_van _ _ _ I x Hx). congruence.
     + intros x' Hx' E. apply in_map_iff in Hx'. destruct Hx' as [x [Ex Hx]]. subst x'.
       destruct (PG x Hx) as (P1 & P2 & P3 & P4 & P5 & _). rewrite P1, P2, P3, P4, P5. apply (i_user _ _ _ I x Hx). congruence.
     + intros x' Hx' E. apply in_map_iff in Hx'. destruct Hx' as [x [Ex Hx]]. subst x'.
@@ -508,9 +510,18 @@ Definition absorb (st : state) (obj : flavor) (g : nat) : flavor :=
                  f_vars := merge_absent Nat.eqb (f_vars obj) (f_vars c);
                  f_keys := merge_absent Nat.eqb (f_keys obj) (f_keys c);
                  f_meths := merge_meths fixed (st_heap st) (f_meths obj) g (f_meths c);
-                 f_prec := f_prec obj; f_initable := f_initable obj; f_required := f_required obj |}
+                 f_prec := f_prec obj; f_initable := f_initable obj ++ f_initable c;
+                 f_required := add_missing (f_required obj) (f_required c) |}
   | None => obj
   end.
+Lemma add_missing_In : forall src dst k, In k (add_missing dst src) <-> In k dst \/ In k src.
+Proof.
+  unfold add_missing. induction src as [| a r IH]; intros dst k; simpl; [tauto |].
+  rewrite IH. destruct (existsb (Nat.eqb a) dst) eqn:E.
+  - apply existsb_exists in E. destruct E as [x [Hx Ex]]. apply Nat.eqb_eq in Ex. subst x. split; [tauto |].
+    intros [H | [H | H]]; [tauto | subst; tauto | tauto].
+  - rewrite in_app_iff. simpl. tauto.
+Qed.
 
 Section Visit.
   Variables (st : state) (ds : list (nat * decl)).
@@ -532,10 +543,28 @@ Section Visit.
     rewrite H1, H2. unfold absorb. destruct (find_flavor st g); split; reflexivity.
   Qed.
 
-  Lemma absorb_fold_io : forall N obj, f_initable (fold_left (absorb st) N obj) = f_initable obj /\ f_required (fold_left (absorb st) N obj) = f_required obj.
+  Lemma absorb_fold_io : forall N obj,
+    (forall v, In v (f_initable (fold_left (absorb st) N obj)) <->
+               In v (f_initable obj) \/ exists g c, In g N /\ find_flavor st g = Some c /\ In v (f_initable c)) /\
+    (forall k, In k (f_required (fold_left (absorb st) N obj)) <->
+               In k (f_required obj) \/ exists g c, In g N /\ find_flavor st g = Some c /\ In k (f_required c)).
   Proof.
-    induction N as [| g N IH]; intros obj; simpl; [split; reflexivity |]. destruct (IH (absorb st obj g)) as [H1 H2].
-    rewrite H1, H2. unfold absorb. destruct (find_flavor st g); split; reflexivity.
+    induction N as [| g N IH]; intros obj; simpl.
+    - split; intros x; (split; [tauto | intros [H | (g & c & [] & _)]; exact H]).
+    - destruct (IH (absorb st obj g)) as [H1 H2]. split; intros x; [rewrite H1 | rewrite H2]; unfold absorb;
+        destruct (find_flavor st g) as [c |] eqn:E; cbn [f_initable f_required]; rewrite ?in_app_iff, ?add_missing_In.
+      + split.
+        * intros [[H | H] | (g' & c' & Hg & Hf & Hi)]; [left; exact H | right; exists g, c; auto | right; exists g', c'; auto].
+        * intros [H | (g' & c' & [Hg | Hg] & Hf & Hi)]; [left; left; exact H | subst g'; rewrite E in Hf; inversion Hf; subst c'; left; right; exact Hi | right; exists g', c'; auto].
+      + split.
+        * intros [H | (g' & c' & Hg & Hf & Hi)]; [left; exact H | right; exists g', c'; auto].
+        * intros [H | (g' & c' & [Hg | Hg] & Hf & Hi)]; [left; exact H | subst g'; congruence | right; exists g', c'; auto].
+      + split.
+        * intros [[H | H] | (g' & c' & Hg & Hf & Hi)]; [left; exact H | right; exists g, c; auto | right; exists g', c'; auto].
+        * intros [H | (g' & c' & [Hg | Hg] & Hf & Hi)]; [left; left; exact H | subst g'; rewrite E in Hf; inversion Hf; subst c'; left; right; exact Hi | right; exists g', c'; auto].
+      + split.
+        * intros [H | (g' & c' & Hg & Hf & Hi)]; [left; exact H | right; exists g', c'; auto].
+        * intros [H | (g' & c' & [Hg | Hg] & Hf & Hi)]; [left; exact H | subst g'; congruence | right; exists g', c'; auto].
   Qed.
 
   Definition visit_step (k : nat) (o : option flavor) (f2 : nat) : option flavor :=
@@ -554,9 +583,9 @@ Section Visit.
       assert (Hobj1 : absorb st obj cf = {| f_name := f_name obj; f_inherit := f_inherit obj ++ [cf];
                  f_vars := merge_absent Nat.eqb (f_vars obj) (f_vars c); f_keys := merge_absent Nat.eqb (f_keys obj) (f_keys c);
                  f_meths := merge_meths fixed (st_heap st) (f_meths obj) cf (f_meths c); f_prec := f_prec obj;
-                 f_initable := f_initable obj; f_required := f_required obj |}).
+                 f_initable := f_initable obj ++ f_initable c; f_required := add_missing (f_required obj) (f_required c) |}).
       { unfold absorb. rewrite Hfind. reflexivity. }
-      rewrite <- Hobj1. fold (visit_step k). rewrite Hinh, fold_left_app. cbn [fold_left].
+      change (v_io fixed) with true. cbv iota. rewrite <- Hobj1. fold (visit_step k). rewrite Hinh, fold_left_app. cbn [fold_left].
       (* the walk over the flattened inherit list of cf *)
       assert (Walk : forall T o, (forall x, In x T -> x <> vanilla /\ defined ds x = true /\ age ds x < k /\
                                             forall e, In e (cf :: E) -> ~ In e (prec ds x)) ->
@@ -989,7 +1018,8 @@ Section StepFlavor.
 
   (* ---- options: keywords, accessors ---- *)
   Let nf2 := {| f_name := f; f_inherit := f_inherit nf1; f_vars := f_vars nf1; f_keys := set_all Nat.eqb (f_keys nf1) keys;
-                f_meths := f_meths nf1; f_prec := []; f_initable := acc_vars (io_inits io) nf1; f_required := io_reqs io |}.
+                f_meths := f_meths nf1; f_prec := []; f_initable := f_initable nf1 ++ acc_vars (io_inits io) nf1;
+                f_required := add_missing (f_required nf1) (io_reqs io) |}.
   Let Gs := acc_vars gets nf2.
   Let Ss := acc_vars sets nf2.
   Let hf3 := def_accessors MGet BGetter Gs (st_heap st, nf2).
@@ -1028,7 +1058,7 @@ Section StepFlavor.
     unfold nf4. rewrite A1, A2, A3, A4, B1, B2, B3, B4. split; [apply (ai_name _ _ _ _ _ _ _ sf_acc4) |].
     split; [apply sf_nf1_basic | repeat split].
   Qed.
-  Lemma sf_nf4_io : f_initable nf4 = acc_vars (io_inits io) nf1 /\ f_required nf4 = io_reqs io.
+  Lemma sf_nf4_io : f_initable nf4 = f_initable nf1 ++ acc_vars (io_inits io) nf1 /\ f_required nf4 = add_missing (f_required nf1) (io_reqs io).
   Proof.
     destruct (ai_io _ _ _ _ _ _ _ sf_acc4) as (A1 & A2). destruct (ai_io _ _ _ _ _ _ _ sf_acc3) as (B1 & B2).
     unfold nf4. rewrite A1, A2, B1, B2. split; reflexivity.
@@ -1132,23 +1162,31 @@ Section StepFlavor.
   Proof.
     assert (Hin : In vanilla (map f_name (st_flavors st))) by (apply (i_dom _ _ _ I); left; reflexivity).
     destruct (find_flavor st vanilla) as [vfl |] eqn:E; [| apply find_flavor_none in E; contradiction].
-    destruct (find_flavor_some _ _ _ E) as [H1 H2]. exists vfl. destruct (i_van _ _ _ I vfl H1 H2) as (V1 & V2 & V3). auto 10.
+    destruct (find_flavor_some _ _ _ E) as [H1 H2]. exists vfl. destruct (i_van _ _ _ I vfl H1 H2) as (V1 & V2 & V3 & _). auto 10.
+  Qed.
+  Lemma sf_vanilla_io : forall vfl, find_flavor st vanilla = Some vfl -> f_initable vfl = [] /\ f_required vfl = [].
+  Proof.
+    intros vfl E. destruct (find_flavor_some _ _ _ E) as [H1 H2]. destruct (i_van _ _ _ I vfl H1 H2) as (_ & _ & _ & V4 & V5). auto.
   Qed.
   Let nf6 := {| f_name := f; f_inherit := L ++ [vanilla]; f_vars := f_vars nf1; f_keys := set_all Nat.eqb (f_keys nf1) keys;
                 f_meths := merge_meths fixed h4 (f_meths nf4) vanilla
                              (match find_flavor st vanilla with Some vfl => f_meths vfl | None => [] end);
-                f_prec := f :: L ++ [vanilla]; f_initable := acc_vars (io_inits io) nf1; f_required := io_reqs io |}.
+                f_prec := f :: L ++ [vanilla]; f_initable := f_initable nf1 ++ acc_vars (io_inits io) nf1;
+                f_required := add_missing (f_required nf1) (io_reqs io) |}.
   Lemma sf_inherit_vanilla :
     inherit_flavor fixed (inherit_fuel st) st4 nf4 vanilla =
     Some {| f_name := f; f_inherit := L ++ [vanilla]; f_vars := f_vars nf1; f_keys := set_all Nat.eqb (f_keys nf1) keys;
-            f_meths := f_meths nf6; f_prec := []; f_initable := acc_vars (io_inits io) nf1; f_required := io_reqs io |}.
+            f_meths := f_meths nf6; f_prec := []; f_initable := f_initable nf1 ++ acc_vars (io_inits io) nf1;
+            f_required := add_missing (f_required nf1) (io_reqs io) |}.
   Proof.
     destruct sf_vanilla_rec as (vfl & V1 & V2 & V3 & V4 & V5 & V6). destruct sf_nf4_basic as (B1 & B2 & B3 & B4 & B5).
+    destruct (sf_vanilla_io vfl V1) as [V7 V8].
     unfold inherit_fuel. cbn [inherit_flavor]. rewrite B2, mem_existsb.
     assert (Hm : mem vanilla L = false).
     { apply mem_false. intros Hin. destruct (sf_L_defined vanilla Hin) as (_ & _ & Hv). apply Hv. reflexivity. }
     rewrite Hm. change (find_flavor st4 vanilla) with (find_flavor st vanilla). rewrite V1, V4, V5, V6. cbn [fold_left].
-    destruct sf_nf4_io as [B6 B7]. unfold nf6. rewrite V1, B1, B3, B4, B5, B6, B7. reflexivity.
+    destruct sf_nf4_io as [B6 B7]. unfold nf6. change (v_io fixed) with true. cbv iota.
+    rewrite V7, V8, V1, B1, B3, B4, B5, B6, B7. rewrite app_nil_r. reflexivity.
   Qed.
   Lemma sf_tbl6 : forall m, tbl_of nf6 m = filter_map (fun g => A2 g m) (f :: L ++ [vanilla]).
   Proof.
@@ -1219,7 +1257,7 @@ Section StepFlavor.
     { destruct (existsb _ _) eqn:E; [| reflexivity]. exfalso. apply existsb_exists in E. destruct E as [fl [H1 H2]].
       apply Nat.eqb_eq in H2. apply sf_f_fresh. rewrite <- H2. apply in_map. exact H1. }
     rewrite He. fold nf0. change (fold_left _ comps (inr nf0)) with (fold_left (comp_step st) comps (inr nf0)). rewrite sf_comps.
-    cbv zeta. fold nf2. fold Gs. fold Ss. fold hf3. fold hf4. fold h4. fold nf4. fold st4. rewrite sf_inherit_vanilla. reflexivity.
+    cbv zeta. change (v_io fixed) with true. cbv iota. fold nf2. fold Gs. fold Ss. fold hf3. fold hf4. fold h4. fold nf4. fold st4. rewrite sf_inherit_vanilla. reflexivity.
   Qed.
   Lemma sf_old_not_f : forall fl y, In fl (st_flavors st) -> In y (f_name fl :: f_inherit fl) -> y <> f.
   Proof.
@@ -1256,6 +1294,48 @@ Section StepFlavor.
   Qed.
   Lemma sf_sinit_new : s_initable ds' f = s_acc (io_inits io) ds' f /\ s_required ds' f = io_reqs io.
   Proof. unfold s_initable, s_required, ds'. rewrite decl_of_cons, Nat.eqb_refl. split; reflexivity. Qed.
+  Lemma sf_sinit_all_old : forall g, defined ds g = true ->
+    s_initable_all ds' g = s_initable_all ds g /\ s_required_inh ds' g = s_required_inh ds g.
+  Proof.
+    intros g H. unfold s_initable_all, s_required_inh. rewrite (sf_prec_old g H).
+    split; [| f_equal]; apply flat_map_ext_in; intros y Hy; apply (sf_sinit_old y (prec_defined ds W g y Hy)).
+  Qed.
+  Lemma sf_L_closed : forall g g', In g L -> In g' (prec ds g) -> In g' L.
+  Proof. intros g g' Hg Hg'. rewrite <- sf_L_flat. apply in_nub. apply in_flat_map. exists g. auto. Qed.
+  (* what the components hand down: the union over L of what each flavor of L declares itself *)
+  Lemma sf_union : forall (F : flavor -> list nat) (S S' : nat -> list nat) (x : nat),
+    (forall g c, In g L -> find_flavor st g = Some c -> forall y, In y (F c) <-> exists g', In g' (prec ds g) /\ In y (S g')) ->
+    (forall g', In g' L -> S' g' = S g') ->
+    ((exists g c, In g L /\ find_flavor st g = Some c /\ In x (F c)) <-> In x (flat_map S' L)).
+  Proof.
+    intros F S S' x HF HS. rewrite in_flat_map. split.
+    - intros (g & c & Hg & Hfc & Hx). apply (HF g c Hg Hfc) in Hx. destruct Hx as (g' & Hg' & Hx).
+      exists g'. assert (In g' L) as Hl by (apply (sf_L_closed g g' Hg Hg')). split; [exact Hl |]. rewrite (HS g' Hl). exact Hx.
+    - intros (g' & Hg' & Hx). rewrite (HS g' Hg') in Hx. destruct (sf_L_defined g' Hg') as (Hd & _).
+      destruct (sf_rec_user g' Hd) as (c & Hc & _). exists g', c. split; [exact Hg' |]. split; [exact Hc |].
+      apply (HF g' c Hg' Hc). exists g'. split; [apply (prec_self ds W g' Hd) | exact Hx].
+  Qed.
+  Lemma sf_io6 : (forall v, In v (f_initable nf6) <-> In v (s_initable_all ds' f)) /\
+                 (forall k, In k (f_required nf6) <-> In k (s_required_inh ds' f)).
+  Proof.
+    destruct sf_sinit_new as [N1 N2]. unfold s_initable_all, s_required_inh. rewrite sf_prec_new. cbn [flat_map f_initable f_required nf6].
+    rewrite N1, N2. destruct (absorb_fold_io st L nf0) as [A1 A2]. fold nf1 in A1, A2. split.
+    - intros v. rewrite !in_app_iff, A1. cbn [f_initable nf0].
+      rewrite (sf_union f_initable (s_initable ds) (s_initable ds') v).
+      + change (acc_vars (io_inits io) nf1) with (acc_vars (io_inits io) nf2).
+        rewrite (sf_acc_same (io_inits io) v). split; [intros [[[] | H] | H]; tauto | intros [H | H]; tauto].
+      + intros g c Hg Hc y. destruct (sf_L_defined g Hg) as (Hd & _). destruct (sf_rec_user g Hd) as (c' & Hc' & Hin & Hn & Hv).
+        rewrite Hc in Hc'. inversion Hc'; subst c'. destruct (i_io _ _ _ I c Hin) as [Q1 _]; [congruence |].
+        rewrite Q1, Hn. unfold s_initable_all. rewrite in_flat_map. tauto.
+      + intros g' Hg'. apply (sf_sinit_old g'). apply (sf_L_defined g' Hg').
+    - intros k. rewrite in_nub, in_app_iff, add_missing_In, A2. cbn [f_required nf0].
+      rewrite (sf_union f_required (s_required ds) (s_required ds') k).
+      + split; [intros [[[] | H] | H]; tauto | intros [H | H]; tauto].
+      + intros g c Hg Hc y. destruct (sf_L_defined g Hg) as (Hd & _). destruct (sf_rec_user g Hd) as (c' & Hc' & Hin & Hn & Hv).
+        rewrite Hc in Hc'. inversion Hc'; subst c'. destruct (i_io _ _ _ I c Hin) as [_ Q2]; [congruence |].
+        rewrite Q2, Hn. unfold s_required_inh. rewrite in_nub, in_flat_map. tauto.
+      + intros g' Hg'. apply (sf_sinit_old g'). apply (sf_L_defined g' Hg').
+  Qed.
   Lemma acc_combo_inj : forall b b', acc_combo f b = acc_combo f b' -> b = b'.
   Proof. intros b b' H. unfold acc_combo in H. simpl in H. inversion H. reflexivity. Qed.
 
@@ -1278,9 +1358,8 @@ Section StepFlavor.
       + subst fl. simpl. rewrite sf_prec_new. simpl. split; [reflexivity |]. split; [reflexivity |]. split; [apply sf_vars | apply sf_keys].
     - intros fl Hfl E. apply in_app_iff in Hfl. destruct Hfl as [Hfl | [Hfl | []]].
       + destruct (i_io _ _ _ I fl Hfl E) as (Q1 & Q2). assert (Hd := user_defined st ss A I fl Hfl E).
-        destruct (sf_sinit_old _ Hd) as [O1 O2]. rewrite O1, O2. split; assumption.
-      + subst fl. destruct sf_sinit_new as [N1 N2]. cbn [f_name f_initable f_required nf6]. rewrite N1, N2. split; [| reflexivity].
-        intros v. apply (sf_acc_same (io_inits io) v).
+        destruct (sf_sinit_all_old _ Hd) as [O1 O2]. rewrite O1, O2. split; assumption.
+      + subst fl. exact sf_io6.
     - intros fl Hfl. apply in_app_iff in Hfl. destruct Hfl as [Hfl | [Hfl | []]]; [apply (i_keys _ _ _ I fl Hfl) | subst fl; apply sf_keys6].
     - intros fl m Hfl. apply in_app_iff in Hfl. destruct Hfl as [Hfl | [Hfl | []]].
       + rewrite (i_tbl _ _ _ I fl m Hfl). apply filter_map_ext. intros y Hy. symmetry. apply sf_A2_old. apply (sf_old_not_f fl y Hfl Hy).
